@@ -1149,6 +1149,10 @@ def simplify_unit(old_unit_str, msginfo=''):
         raise ValueError(f"{_msginfo}The units '{old_unit_str}' are invalid.")
 
     new_str = found_unit.name()
+    if new_str != '1' and not any(p and k in _UNIT_LIB.unit_table
+                                  for k, p in found_unit._names.items()):
+        # only numeric factors are left (e.g. 'm/m*2'): a bare number is not a unit string
+        return old_unit_str
     if new_str == '1':
         # Special Case. Unity always becomes None.
         new_str = None
